@@ -52,3 +52,23 @@ pub proof fn thm_individual_lane_parabola(kc: Seq<T>, x: Seq<T>, yc: Seq<T>, rb:
     assert(all_fin2(y)) by { assert forall|i: int, j: int| 0 <= i < y.len() && 0 <= j < y[i].len() implies is_fin(#[trigger] y[i][j]) by { assert(y[i][j] == yc[i]); } }
     assert forall|t: int| 0 <= t < 3 implies kc[t]@ == kpar(x, y, 1, 0, t) && y[t][0] == yc[t] by {}
 }
+
+/// C16 for one lane: data of the lane sampled from a cubic, the lane's own end conditions NotAKnot or FirstDeriv / SecondDeriv values taken from
+/// that cubic (Natural / Clamped when the cubic has S''=0 / S'=0 there) => the piece built from the lane's slopes IS the cubic, at every query q
+pub proof fn thm_individual_lane_reproduces_cubic(kc: Seq<T>, x: Seq<T>, yc: Seq<T>, rb: RowBoundary<T>, c0: real, c1: real, c2: real, c3: real, i: int, q: real)
+    requires yc.len() >= 3, x.len() == yc.len(), kc.len() == yc.len(), 0 <= i < yc.len() - 1,
+             lane_ok(kc, x, yc, rb), solve_covered(ib_of_row(rb), yc.len() as int), solve_inputs_ok(x, as1(yc), ib_of_row(rb)),
+             forall|t: int| 0 <= t < yc.len() ==> (#[trigger] yc[t])@ == pc(c0, c1, c2, c3, x[t]@),
+             end_matches(ib_left(ib_of_row(rb)), x[0]@, c1, c2, c3), end_matches(ib_right(ib_of_row(rb)), x[yc.len() - 1]@, c1, c2, c3)
+    ensures herm(x[i]@, x[i + 1]@, yc[i]@, yc[i + 1]@, aK(x[i]@, x[i + 1]@, yc[i]@, yc[i + 1]@, kc[i]@), bK(x[i]@, x[i + 1]@, yc[i]@, yc[i + 1]@, kc[i + 1]@), q) == pc(c0, c1, c2, c3, q)
+{
+    let b = ib_of_row(rb); let n = yc.len() as int; let y = as1(yc);
+    assert(samples_cubic(x, y, 0, c0, c1, c2, c3)) by {
+        assert forall|t: int| 0 <= t < y.len() implies (#[trigger] y[t])[0]@ == pc(c0, c1, c2, c3, x[t]@) by { assert(y[t][0] == yc[t]); }
+    }
+    thm_C16_slopes_of_a_cubic(x, y, ib_left(b), ib_right(b), n, 1, 0, c0, c1, c2, c3, i);
+    thm_C16_slopes_of_a_cubic(x, y, ib_left(b), ib_right(b), n, 1, 0, c0, c1, c2, c3, i + 1);
+    assert(kc[i]@ == dpc(c1, c2, c3, x[i]@) && kc[i + 1]@ == dpc(c1, c2, c3, x[i + 1]@));
+    assert(hx(x, i) > 0real);
+    L_cubic_hermite_exact(x[i]@, x[i + 1]@, c0, c1, c2, c3, q);
+}
